@@ -23,7 +23,7 @@ REQUIRED = {"delivered_exactly_once": 300, "bystanders_clean": 300, "write_true"
 ASSUMPTIONS = ["ideal medium (no loss, no collisions) and homogeneous MCU profiles for the "
                "liveness clauses; messages are sent one at a time",
                "fragmented ACK-typed messages over >=2 hops: see known_findings (if listed)"]
-BUDGET = {"quick": 150, "thorough": 600}
+BUDGET = {"quick": 480, "thorough": 900}
 SHARDS = {"quick": 16, "thorough": 16}
 
 
